@@ -8,8 +8,11 @@ import numpy as np
 from core import Driver, Failure, nl, q, ql
 
 ID = "C03"
-PROOF_MODULES = ["PyribsProofs.C03"]
+from genf import translate  # noqa: E402,F401  (regenerates lean/PyribsGen/Formulas.lean from the tree under check)
+PROOF_MODULES = ["PyribsProofs.C03", "PyribsGen.Formulas", "PyribsProofs.GenF"]
 THEOREMS = [
+    "Pyribs.GenFProofs.grid_quot_matches",
+    "Pyribs.GenFProofs.grid_coord_from_source",
     "Pyribs.C03.grid_range",
     "Pyribs.C03.grid_monotone",
     "Pyribs.C03.grid_cell",
